@@ -2,10 +2,10 @@ SPECIFICATION Spec
 CONSTANTS
   Validators = {1, 2}
   SlotSpace = {2, 3}
-  Nows = {1, 2, 3, 6}
-  Committees = {0, 1}
+  Nows = {2, 3, 6}
+  Committees = {0}
   Sizes = {8}
-  Targets = {2, 16}
+  Targets = {2}
   HVals = {0, 1}
   HMod = 8
   MaxDuties = 2
